@@ -206,19 +206,19 @@ class DSDLTemplateLoader(BaseLoader):
             assert template_name.name == 'StructureType.j2'
 
         """
-        template_path = None
-        if self._fsloader is not None:
-            filtered_templates = self._filter_template_list_by_suffix(self._fsloader.list_templates())
-            template_path = self._type_to_template_internal(
-                value_type, dict(map(lambda x: (pathlib.Path(x).stem, pathlib.Path(x)), filtered_templates))
-            )
-        if template_path is None and self._package_loader is not None:
-            filtered_templates = self._filter_template_list_by_suffix(self._package_loader.list_templates())
-            template_path = self._type_to_template_internal(
-                value_type, dict(map(lambda x: (pathlib.Path(x).stem, pathlib.Path(x)), filtered_templates))
-            )
+        # One search over the union of both template sets: the nearest class of the hierarchy that has a template
+        # in either set wins and, for that class, a file-system (user) template shadows the package (built-in)
+        # template of the same name, exactly as in get_source. Searching the two sets one after the other through
+        # the shared lookup cache made the result depend on which types had been looked up before (a package
+        # template cached for a base class was returned by the file-system pass for a derived class that has a
+        # package template of its own).
+        templates = dict()  # type: typing.Dict[str, pathlib.Path]
+        for loader in (self._package_loader, self._fsloader):
+            if loader is not None:
+                filtered_templates = self._filter_template_list_by_suffix(loader.list_templates())
+                templates.update(map(lambda x: (pathlib.Path(x).stem, pathlib.Path(x)), filtered_templates))
 
-        return template_path
+        return self._type_to_template_internal(value_type, templates)
 
     # +----------------------------------------------------------------------------------------------------------------+
     # | PRIVATE
@@ -253,6 +253,9 @@ class DSDLTemplateLoader(BaseLoader):
                 self._type_to_template_lookup_cache[current_search_type] = template_path
                 break
             except KeyError:
+                if current_search_type is pydsdl.Any:
+                    # The hierarchy of DSDL objects ends here; do not go on to abc.ABC.
+                    continue
                 for base_type in current_search_type.__bases__:
                     if base_type != object and base_type not in discovered:
                         search_queue.appendleft(base_type)
